@@ -200,11 +200,18 @@ class GradientMethod(Alg):
             if self.accelerate:
                 t_old = self.t
                 self.t = (1 + (1 + 4 * t_old**2) ** 0.5) / 2
+                # Residual w.r.t. the point the step was applied to (z):
+                # x can stall at a constraint while z is still moving.
+                self.resid = (
+                    xp.linalg.norm(self.x - self.z).item() / self.alpha
+                )
                 backend.copyto(
                     self.z, self.x + ((t_old - 1) / self.t) * (self.x - x_old)
                 )
-
-            self.resid = xp.linalg.norm(self.x - x_old).item() / self.alpha
+            else:
+                self.resid = (
+                    xp.linalg.norm(self.x - x_old).item() / self.alpha
+                )
 
     def _done(self):
         return (self.iter >= self.max_iter) or self.resid <= self.tol
